@@ -131,7 +131,55 @@ Lemma io_read_healthy : forall win w t d,
     w_inq w1 = match dropN n d with [] => [] | r => [(w_now w, r)] end.
 Proof. exact (io_read_healthy_dl None). Qed.
 
+(* a read that finds its bytes waiting does not wait: the clock, the wait counter and the select's timer are left alone *)
+Lemma io_read_healthy_waits : forall dl win w t d,
+  win <> 0 -> w_script w = [] -> w_inq w = [(t, d)] -> t <= w_now w -> d <> [] -> lenN d <= BIG ->
+  w_waits (fst (io_read win dl w)) = w_waits w.
+Proof.
+  intros dl win w t d Hw Hs Hi Ht Hd Hl. unfold io_read.
+  destruct (N.eqb_spec win 0) as [E|_]; [contradiction|].
+  rewrite (next_ev_healthy w Hs). cbn [N.eqb]. rewrite Hi. cbn [avail_split].
+  destruct (N.leb_spec t (w_now w)) as [_|L]; [|lia]. rewrite app_nil_r.
+  destruct d as [|x d']; [contradiction|].
+  unfold deliver. cbn [w_now w_inq upd_script]. rewrite Hi. cbn [avail_split].
+  destruct (N.leb_spec t (w_now w)) as [_|L]; [|lia]. reflexivity.
+Qed.
+
+Lemma timer_fired_healthy : forall y dl w t d,
+  w_script w = [] -> w_inq w = [(t, d)] -> t <= w_now w -> d <> [] -> timer_fired y dl w = false.
+Proof.
+  intros y dl w t d Hs Hi Ht Hd. unfold timer_fired. rewrite (next_ev_healthy w Hs). cbn [fst N.eqb negb andb orb].
+  rewrite Hi. cbn [avail_split]. destruct (N.leb_spec t (w_now w)) as [_|L]; [|lia]. rewrite app_nil_r. cbn [fst].
+  destruct d as [|x d']; [contradiction|]. destruct dl as [dd|]; [|apply andb_false_r].
+  rewrite !andb_false_r. reflexivity.
+Qed.
+
 (* ---------- the packet reader pulls the CONNACK in ---------- *)
+Lemma fill_go_step_dl : forall dl y f w r' win t d,
+  packet_available (s_reader (w_sess w)) = false -> receive_buffer (s_reader (w_sess w)) = (r', Some win) -> win <> 0 ->
+  w_script w = [] -> w_inq w = [(t, d)] -> t <= w_now w -> d <> [] -> lenN d <= BIG ->
+  let n := N.min win (lenN d) in
+  exists w2, fill_go (S f) y dl w = fill_go f y dl w2 /\
+    w_sess w2 = set_reader (w_sess w) (commit r' (takeN n d)) /\
+    w_script w2 = [] /\ w_now w2 = w_now w /\
+    w_inq w2 = match dropN n d with [] => [] | r => [(w_now w, r)] end.
+Proof.
+  intros dl y f w r' win t d Ha Hr Hw Hs Hi Ht Hd Hl n. cbn [fill_go]. rewrite Ha, Hr.
+  destruct (N.eqb_spec win 0) as [E|_]; [contradiction|].
+  set (w0 := upd_sess w (set_reader (w_sess w) r')).
+  rewrite (timer_fired_healthy y dl w0 t d Hs Hi Ht Hd).
+  pose proof (io_read_healthy_waits dl win w0 t d Hw Hs Hi Ht Hd Hl) as Hwt.
+  destruct (io_read_healthy_dl dl win w0 t d Hw Hs Hi Ht Hd Hl) as [w1 [Er [S1 [S2 [S3 S4]]]]]. fold n in Er, S4.
+  rewrite Er in Hwt. cbn [fst] in Hwt.
+  rewrite Er, Hwt, N.eqb_refl. cbn [negb]. rewrite orb_false_r.
+  assert (Hn : takeN n d <> []).
+  { destruct d as [|x d']; [contradiction|]. unfold n. rewrite lenN_cons.
+    assert (1 <= N.min win (1 + lenN d')) by lia. intros E. apply (f_equal lenN) in E. rewrite lenN_takeN, lenN_cons, lenN_nil in E. lia. }
+  destruct (takeN n d) as [|y0 ys] eqn:Et; [contradiction|].
+  eexists. split; [reflexivity|]. cbn [w_sess w_script w_now w_inq upd_sess]. rewrite S1. cbn [w0 w_sess upd_sess set_reader s_reader].
+  repeat split; try assumption; try reflexivity.
+Qed.
+
 Lemma fill_step_dl : forall dl f w r' win t d,
   packet_available (s_reader (w_sess w)) = false -> receive_buffer (s_reader (w_sess w)) = (r', Some win) -> win <> 0 ->
   w_script w = [] -> w_inq w = [(t, d)] -> t <= w_now w -> d <> [] -> lenN d <= BIG ->
@@ -140,19 +188,7 @@ Lemma fill_step_dl : forall dl f w r' win t d,
     w_sess w2 = set_reader (w_sess w) (commit r' (takeN n d)) /\
     w_script w2 = [] /\ w_now w2 = w_now w /\
     w_inq w2 = match dropN n d with [] => [] | r => [(w_now w, r)] end.
-Proof.
-  intros dl f w r' win t d Ha Hr Hw Hs Hi Ht Hd Hl n. cbn [fill_packet_reader]. rewrite Ha, Hr.
-  destruct (N.eqb_spec win 0) as [E|_]; [contradiction|].
-  set (w0 := upd_sess w (set_reader (w_sess w) r')).
-  destruct (io_read_healthy_dl dl win w0 t d Hw Hs Hi Ht Hd Hl) as [w1 [Er [S1 [S2 [S3 S4]]]]]. fold n in Er, S4.
-  rewrite Er.
-  assert (Hn : takeN n d <> []).
-  { destruct d as [|x d']; [contradiction|]. unfold n. rewrite lenN_cons.
-    assert (1 <= N.min win (1 + lenN d')) by lia. intros E. apply (f_equal lenN) in E. rewrite lenN_takeN, lenN_cons, lenN_nil in E. lia. }
-  destruct (takeN n d) as [|y ys] eqn:Et; [contradiction|].
-  eexists. split; [reflexivity|]. cbn [w_sess w_script w_now w_inq upd_sess]. rewrite S1. cbn [w0 w_sess upd_sess set_reader s_reader].
-  repeat split; try assumption; try reflexivity.
-Qed.
+Proof. intros dl. exact (fill_go_step_dl dl false). Qed.
 
 Lemma fill_step : forall f w r' win t d,
   packet_available (s_reader (w_sess w)) = false -> receive_buffer (s_reader (w_sess w)) = (r', Some win) -> win <> 0 ->
@@ -230,7 +266,7 @@ Proof.
   change (N.min 3 (lenN [sp; 0; 0])) with 3 in S3, I3.
   change (takeN 3 [sp; 0; 0]) with [sp; 0; 0] in S3. change (dropN 3 [sp; 0; 0]) with (@nil N) in I3.
   (* complete *)
-  cbn [fill_packet_reader]. rewrite S3. cbn [set_reader s_reader]. unfold packet_available, commit. cbn [rplen rdata read_bytes]. rewrite D2.
+  unfold fill_packet_reader. cbn [fill_go]. rewrite S3. cbn [set_reader s_reader]. unfold packet_available, commit. cbn [rplen rdata read_bytes]. rewrite D2.
   change (5 <=? lenN ([32; 3] ++ [sp; 0; 0])) with true. cbv iota. eexists. split; [reflexivity|]. split; [|congruence].
   rewrite S3, S2, S1. unfold set_reader, commit. cbn [s_cfg s_client_id s_reader s_ob s_pid s_gen s_sp s_srv s_rt rcap rdata rplen].
   rewrite D2. reflexivity.
